@@ -20,9 +20,9 @@ Definition lit_tok (l : lit) : token :=
   | LInt n => TInt n
   | LDec m s => TDec true m s
   | LDate y m d => TDate y m d
-  | LStr s => TStr (existsb (fun c => Z.eqb c 39) s) s
+  | LStr s => TStr s
   end.
-Definition str_tok (s : str) : token := TStr (existsb (fun c => Z.eqb c 39) s) s.
+Definition str_tok (s : str) : token := TStr s.
 
 Fixpoint lits_tail (ls : list lit) : list token :=
   match ls with
